@@ -112,10 +112,11 @@ Refusal(side) == [id |-> 0, action |-> "deny", status |-> IF side = "req" THEN 4
 \* result of offering k bytes to buffer b of a side with configuration c
 \*   [b, st, lastPhase, ret, n]
 Offer(sideName, c0, b, k, mode) ==
-  LET c     == [c0 EXCEPT !.access = IF sideName = "req" THEN ReqAccess ELSE RespAccess]
+  LET ov    == IF sideName = "req" THEN st.reqLimit ELSE st.respLimit      \* limit set at run time by ctl (0 = none)
+      c     == [c0 EXCEPT !.access = IF sideName = "req" THEN ReqAccess ELSE RespAccess, !.limit = IF ov = 0 THEN c0.limit ELSE ov]
       len   == Len(b.stored)
       act   == EffAction(c)
-      room  == c.limit - len
+      room  == IF c.limit >= len THEN c.limit - len ELSE 0      \* a limit lowered below what is buffered leaves no room
       reach == len + k >= c.limit            \* the cumulative size reaches the limit
       b1    == [b EXCEPT !.supplied = @ + k]
   IN
@@ -196,8 +197,10 @@ OffEvaluatesNothing ==
 IsPrefixOfSupplied(b) == \A j \in 1..Len(b.stored) : b.stored[j] = j
 \* (bytes offered while body access is switched off are not buffered: the prefix law is stated for
 \* transactions whose body access is not changed by ctl)
-Faithful == /\ ((~rq.refused /\ st.reqAccess = "cfg") => IsPrefixOfSupplied(rq)) /\ Len(rq.stored) <= cfg.req.limit
-            /\ ((~rs.refused /\ st.respAccess = "cfg") => IsPrefixOfSupplied(rs)) /\ Len(rs.stored) <= cfg.resp.limit
+\* (... nor its limit: bytes cut off at a limit that ctl raises afterwards leave a gap; the laws are stated for
+\* transactions whose access and limits stay as configured, the edge replay covers the others)
+Faithful == /\ ((~rq.refused /\ st.reqAccess = "cfg" /\ st.reqLimit = 0) => IsPrefixOfSupplied(rq)) /\ (st.reqLimit = 0 => Len(rq.stored) <= cfg.req.limit)
+            /\ ((~rs.refused /\ st.respAccess = "cfg" /\ st.respLimit = 0) => IsPrefixOfSupplied(rs)) /\ (st.respLimit = 0 => Len(rs.stored) <= cfg.resp.limit)
 
 \* Reject: refused exactly when the cumulative size reaches the limit (engine On throughout)
 RejectExact ==
@@ -213,6 +216,6 @@ PartialExact ==
 
 \* what the body phase saw is what is stored (same bytes for the processor, the variable and the reader)
 BodyVarIsStoredPrefix ==
-  (reqBodyVar # Unset /\ st.reqAccess = "cfg") => (\A j \in 1..Len(reqBodyVar) : reqBodyVar[j] = j) /\ Len(reqBodyVar) <= Len(rq.stored)
+  (reqBodyVar # Unset /\ st.reqAccess = "cfg" /\ st.reqLimit = 0) => (\A j \in 1..Len(reqBodyVar) : reqBodyVar[j] = j) /\ Len(reqBodyVar) <= Len(rq.stored)
 
 =============================================================================
